@@ -56,6 +56,9 @@ def reopen(l0: int, l1: int, l2: int) -> bool:
     """
     # C01.b: real write_fp -> real open_fp on the written metadata: the re-opened object shows the same tree, lengths and
     # data extents in every namespace; each re-opened file's data is read from extent*2048 with the given length
+    fixed = h.P.get('fixed')
+    if fixed:
+        l1, l2 = fixed
     iso = skel.new_iso(CFG)
     SK(iso, [l0, l1, l2], CFG)
     out = h.OutFP()
@@ -114,14 +117,20 @@ def obligations(tier):
                         'samples': [(1, 2048, 2049)], 'stubs': ['M_rand', 'constant clock', 'Span file data']})
     for sk in (['sk1'] if quick else ['sk1', 'sk2']):
         for c in cfgs:
-            if c['udf']:
-                continue     # UDF re-open: see DESIGN (cost); covered in thorough tier by C10
             if quick and c['joliet'] and not c['rr']:
                 continue     # quick: Joliet re-open is exercised together with Rock Ridge
+            if quick and c['udf'] and (c['joliet'] or c['rr']):
+                continue     # quick: one UDF re-open configuration
             nm = skel.cfg_name(c)
+            params = {'sk': sk, 'cfg': c, 'maxlen': 6144}
+            bnd = 'three lengths in [0, 6144]'
+            if c['udf']:
+                # UDF re-open costs ~20 s per path (the parser keys dictionaries by symbolic extents): one symbolic length
+                params['fixed'] = [2048, 2049]
+                bnd = 'l0 in [0, 6144], l1 = 2048, l2 = 2049'
             obs.append({'name': 'C01.b/%s/%s' % (sk, nm), 'module': __name__, 'func': 'reopen',
-                        'params': {'sk': sk, 'cfg': c, 'maxlen': 6144}, 'cond_timeout': 1500, 'path_timeout': 300,
-                        'bounds': 'skeleton %s; config %s; three lengths in [0, 6144]; one copy-loop iteration per file' % (sk, nm),
+                        'params': params, 'cond_timeout': 1500, 'path_timeout': 300,
+                        'bounds': 'skeleton %s; config %s; %s; one copy-loop iteration per file' % (sk, nm, bnd),
                         'functions': ['PyCdlib.write_fp', 'PyCdlib.open_fp', 'PyCdlib._open_fp', 'PyCdlib._parse_volume_descriptors',
                                       'PyCdlib._walk_directories', 'PyCdlib._parse_path_table', 'DirectoryRecord.parse', 'DirectoryRecord.record',
                                       'PrimaryOrSupplementaryVD.parse', 'PrimaryOrSupplementaryVD.record', 'Inode.parse', 'RockRidge.parse'],
